@@ -27,6 +27,9 @@ FAIL_OPS = ['map', 'starmap', 'filter', 'scan', 'scan_reduce', 'scan_list', 'sum
 AGG = {'sum_km': lambda **kw: rs.math.sum(**kw), 'mean_km': lambda **kw: rs.math.mean(**kw), 'variance_km': lambda **kw: rs.math.variance(**kw),
        'max_km': lambda **kw: rs.math.max(**kw), 'stddev_km': lambda **kw: rs.math.stddev(**kw), 'fvariance_km': lambda **kw: rs.math.formal.variance(**kw)}
 DRIVES = ['cold', 'cold', 'hot_errors_first', 'hot_data_first']
+# operators of the scale cases: the ones whose state shows a lost / zeroed slot come round most often
+SCALE_OPS = ['scan_list', 'map', 'scan', 'scan_list', 'filter', 'scan_reduce', 'scan_list', 'starmap', 'variance_km', 'scan_list', 'sum_km', 'mean_km',
+             'scan_list', 'max_km', 'stddev_km']
 HANDLERS = ['ignore', 'error_map', 'router', 'none']
 DOWNSTREAM = ['none', 'running_sum', 'distinct', 'lag', 'count']
 
@@ -173,8 +176,10 @@ class C13(Check):
                 # scale: 70-300 interleaved keys (state tables grow beyond their first blocks while some keys only ever failed)
                 n = rng.choice([300, 700])
                 ng = rng.choice([70, 130, 300])
-                F = sorted(set(range(0, n, rng.choice([3, 8]))) | set(rng.sample(range(n), 20)))
-                yield {'op': FAIL_OPS[(j // 100) % len(FAIL_OPS)], 'handler': HANDLERS[(j // 500) % 3], 'down': rng.choice(DOWNSTREAM),
+                # (round-robin keys: item i is the FIRST item of key i for i < ng; the keys that open a new allocation block
+                # of the state tables - 64, 128, 256 and their successors - are among those whose first item fails)
+                F = sorted(set(range(0, n, rng.choice([3, 8]))) | set(rng.sample(range(n), 20)) | {i for i in (64, 65, 128, 129, 256, 257) if i < ng})
+                yield {'op': SCALE_OPS[(j // 100) % len(SCALE_OPS)], 'handler': HANDLERS[(j // 500) % 3], 'down': rng.choice(DOWNSTREAM),
                        'ctx': 'group', 'ngroups': ng, 'n': n, 'F': F, 'perm_seed': rng.randrange(1 << 30), 'first_fail_per_key': True}
                 continue
             n = rng.choice([8, 12, 20, 40])
